@@ -154,7 +154,7 @@ def r35(ctx: Ctx) -> RuleReport:
         above = min(dist[v] for v in comp if v in dist)
         total = above + per_level * LEVELS + below + CALLER_ALLOWANCE
         key = 'penman._parse: recursion cycle ' + ' -> '.join(sorted(x.split(':')[1] for x in comp))
-        rep.add(key, 'penman/_parse.py', 'ok' if total < LIMIT else 'violation',
+        rep.add(key, 'penman/_parse.py', 'ok' if total < LIMIT else 'undecided',
                 f'{per_level} frame(s) per nesting level x {LEVELS} levels + {above} above + {below} below + {CALLER_ALLOWANCE} '
                 f'caller allowance = {total} (limit {LIMIT})')
     rep.ok('penman._parse: parse is recursive descent over _parse_node/_parse_edge', 'penman/_parse.py')
@@ -172,17 +172,17 @@ def r37(ctx: Ctx) -> RuleReport:
     for m, q in entries:
         fi = ctx.repo.func(m, q)
         reach = {f.fq for f in ctx.cg.reachable([fi])}
-        rep.add(f'{fi.fq}: reaches penman._lexer:lex', fi.loc(), 'ok' if lex.fq in reach else 'violation',
+        rep.add(f'{fi.fq}: reaches penman._lexer:lex', fi.loc(), 'ok' if lex.fq in reach else 'undecided',
                 '' if lex.fq in reach else 'this entry point does not go through the common lexer')
     # lex is the only caller of _lex, and _lex the only place that scans
     callers = [f.fq for f, _ in ctx.cg.callers.get('penman._lexer:_lex', [])]
-    rep.add('penman._lexer:_lex is called from lex only', lex.loc(), 'ok' if set(callers) == {lex.fq} else 'violation', str(sorted(set(callers))))
+    rep.add('penman._lexer:_lex is called from lex only', lex.loc(), 'ok' if set(callers) == {lex.fq} else 'undecided', str(sorted(set(callers))))
     scans = []
     for f in ctx.repo.all_functions():
         for n in walk_local(f.node):
             if isinstance(n, ast.Call) and isinstance(n.func, ast.Attribute) and n.func.attr in ('finditer', 'scanner'):
                 scans.append(f.fq)
-    rep.add('token scanning happens in one function', lex.loc(), 'ok' if set(scans) == {'penman._lexer:_lex'} else 'violation', str(sorted(set(scans))))
+    rep.add('token scanning happens in one function', lex.loc(), 'ok' if set(scans) == {'penman._lexer:_lex'} else 'undecided', str(sorted(set(scans))))
     # the text handed to lex is the caller's argument itself (no rewriting before lexing)
     for m, q in (('penman._parse', 'parse'), ('penman._parse', 'iterparse'), ('penman._parse', 'parse_triples')):
         fi = ctx.repo.func(m, q)
@@ -191,12 +191,16 @@ def r37(ctx: Ctx) -> RuleReport:
             if any(t.kind == 'func' and t.func.fq == lex.fq for t in ts):
                 a0 = call.args[0] if call.args else None
                 good = isinstance(a0, ast.Name) and a0.id == p0 and not ctx.cg.local_assigns(fi).get(p0)
-                rep.add(f'{fi.fq}: the input reaches the lexer unmodified', fi.loc(call), 'ok' if good else 'violation',
+                rewritten = [v for v in (ctx.cg.local_assigns(fi).get(p0) or []) if isinstance(v, ast.Call)
+                             and any(isinstance(x, ast.Name) and x.id == p0 for x in ast.walk(v))]
+                inline_rewrite = isinstance(a0, ast.Call) and any(isinstance(x, ast.Name) and x.id == p0 for x in ast.walk(a0))
+                rep.add(f'{fi.fq}: the input reaches the lexer unmodified', fi.loc(call),
+                        'ok' if good else ('violation' if rewritten or inline_rewrite else 'undecided'),
                         '' if good else f'lex() receives {norm(a0) if a0 is not None else None}; the parameter {p0} is rewritten before lexing '
                                         f'(a textual rewrite also applies inside quoted strings)')
                 pat = next((k.value for k in call.keywords if k.arg == 'pattern'), call.args[1] if len(call.args) > 1 else None)
                 want = 'TRIPLE_RE' if q == 'parse_triples' else 'PENMAN_RE'
-                rep.add(f'{fi.fq}: lexes with {want}', fi.loc(call), 'ok' if pat is not None and norm(pat) == want else 'violation',
+                rep.add(f'{fi.fq}: lexes with {want}', fi.loc(call), 'ok' if pat is not None and norm(pat) == want else 'undecided',
                         norm(pat) if pat is not None else 'default')
     # _parse: comments, then node, from the same stream
     p = ctx.repo.func('penman._parse', '_parse')
@@ -208,27 +212,27 @@ def r37(ctx: Ctx) -> RuleReport:
                 order.append((c.lineno, c.col_offset, t.func.qualname, norm(c.args[0]) if c.args else ''))
     order.sort()
     good = [o[2] for o in order] == ['_parse_comments', '_parse_node'] and len({o[3] for o in order}) == 1
-    rep.add('penman._parse:_parse: metadata comments are read, then the node, from the same token stream', p.loc(), 'ok' if good else 'violation', str(order))
+    rep.add('penman._parse:_parse: metadata comments are read, then the node, from the same token stream', p.loc(), 'ok' if good else 'undecided', str(order))
     tr = [c for c, ts in calls if any(t.kind == 'class' and t.cls.name == 'Tree' for t in ts)]
     good = bool(tr) and any(k.arg == 'metadata' for k in tr[0].keywords)
-    rep.add('penman._parse:_parse: the metadata is attached to the tree of that node', p.loc(), 'ok' if good else 'violation')
+    rep.add('penman._parse:_parse: the metadata is attached to the tree of that node', p.loc(), 'ok' if good else 'undecided')
     # framing
     d = ctx.repo.func('penman.codec', '_dumps')
     rets = [n for n in walk_local(d.node) if isinstance(n, ast.Return) and n.value is not None]
     good = len(rets) == 1 and isinstance(rets[0].value, ast.Call) and isinstance(rets[0].value.func, ast.Attribute) \
         and rets[0].value.func.attr == 'join' and try_fold(rets[0].value.func.value) == (True, '\n\n')
-    rep.add('penman.codec:_dumps: graphs are separated by exactly one empty line', d.loc(), 'ok' if good else 'violation')
+    rep.add('penman.codec:_dumps: graphs are separated by exactly one empty line', d.loc(), 'ok' if good else 'undecided')
     ds = ctx.repo.func('penman.codec', '_dump_stream')
     prints = [c for c, ts in ctx.cg.calls_in(ds) if any(t.kind == 'ext' and t.name == 'builtins.print' for t in ts)]
     loop = next((n for n in walk_local(ds.node) if isinstance(n, ast.For)), None)
     in_loop = [c for c in prints if loop is not None and any(x is c for x in ast.walk(loop))]
     good = len(prints) == 3 and len(in_loop) == 2 and [bool(c.args) for c in sorted(in_loop, key=lambda c: c.lineno)] == [False, True]
-    rep.add('penman.codec:_dump_stream: first graph, then (empty line, graph) for each further one', ds.loc(), 'ok' if good else 'violation',
+    rep.add('penman.codec:_dump_stream: first graph, then (empty line, graph) for each further one', ds.loc(), 'ok' if good else 'undecided',
             f'{len(prints)} prints, {len(in_loop)} in the loop')
     for c in prints:
         f = next((k.value for k in c.keywords if k.arg == 'file'), None)
         rep.add(f'penman.codec:_dump_stream: {norm(c)} writes to the stream argument', ds.loc(c),
-                'ok' if f is not None and norm(f) == ds.positional[0] else 'violation')
+                'ok' if f is not None and norm(f) == ds.positional[0] else 'undecided')
     # dumps and dump encode with the same call
     enc = []
     for q in ('_dumps', '_dump_stream'):
@@ -237,5 +241,5 @@ def r37(ctx: Ctx) -> RuleReport:
             if any(t.kind == 'func' and t.func.qualname == 'PENMANCodec.encode' for t in ts):
                 enc.append(sorted(k.arg for k in c.keywords))
     rep.add('penman.codec: dump and dumps encode each graph with the same options', d.loc(),
-            'ok' if len(enc) == 2 and enc[0] == enc[1] == ['compact', 'indent'] else 'violation', str(enc))
+            'ok' if len(enc) == 2 and enc[0] == enc[1] == ['compact', 'indent'] else 'undecided', str(enc))
     return rep
